@@ -22,9 +22,9 @@ func c12Orphans(c *core.Check) {
 		"breakLine": {
 			"len(*newChildren) - orphans < 0",
 			"widows - 1 == 0",
-			"φneeded - 1 == 0",
-			"len(*newChildren) - orphans - φneeded < 0",
-			"φneeded == 0",
+			"φ1 - 1 == 0",
+			"len(*newChildren) - orphans - φ1 < 0",
+			"φ1 == 0",
 		},
 	}
 	var fns []string
@@ -71,6 +71,17 @@ func c12Orphans(c *core.Check) {
 			return ""
 		}
 		found := map[string]token.Pos{}
+		// loop-carried variables are named by role, not by their source name: φ1 is the one initialised from widows
+		phiNames := map[string]string{}
+		core.Instrs(fn, func(in ssa.Instruction) {
+			phi, ok := in.(*ssa.Phi)
+			if !ok || phi.Comment == "" {
+				return
+			}
+			if arithDerives(phi, func(v ssa.Value) bool { return leaf(v) == "widows" }) {
+				phiNames["φ"+phi.Comment] = "φ1"
+			}
+		})
 		core.Instrs(fn, func(in ssa.Instruction) {
 			b, ok := in.(*ssa.BinOp)
 			if !ok {
@@ -91,8 +102,16 @@ func c12Orphans(c *core.Check) {
 				return
 			}
 			d := x.Plus(y, -1)
-			if !d.Mentions("orphans") && !d.Mentions("widows") && !d.Mentions("φneeded") {
+			x, y = renamePhis(x, phiNames), renamePhis(y, phiNames)
+			d = x.Plus(y, -1)
+			if !d.Mentions("orphans") && !d.Mentions("widows") && !d.Mentions("φ") {
 				return
+			}
+			if d.Mentions("φ") && !d.Mentions("orphans") && !d.Mentions("widows") {
+				// a test on a loop-carried variable alone: only those of the variable derived from widows count
+				if !d.Mentions("φ1") {
+					return
+				}
 			}
 			atom := core.LinearAtom(op, x, y)
 			// an atom and its negation split the states the same way: keep <, == only
@@ -134,4 +153,52 @@ func canonicalSplit(atom string) string {
 		}
 	}
 	return atom
+}
+
+// renamePhis renames the φ<source name> leaves of a linear form by role; unnamed ones keep a neutral name.
+func renamePhis(l core.Lin, names map[string]string) core.Lin {
+	out := core.Lin{T: map[string]int64{}, K: l.K}
+	for k, v := range l.T {
+		nk := k
+		if strings.HasPrefix(k, "φ") {
+			if r, ok := names[k]; ok {
+				nk = r
+			} else {
+				nk = "φother"
+			}
+		}
+		out.T[nk] += v
+	}
+	return out
+}
+
+// arithDerives: the value is computed from a source through phis, conversions and integer arithmetic.
+func arithDerives(v ssa.Value, src func(ssa.Value) bool) bool {
+	seen := map[ssa.Value]bool{}
+	var walk func(v ssa.Value, d int) bool
+	walk = func(v ssa.Value, d int) bool {
+		if seen[v] || d > 10 {
+			return false
+		}
+		seen[v] = true
+		if src(v) {
+			return true
+		}
+		switch x := v.(type) {
+		case *ssa.Phi:
+			for _, e := range x.Edges {
+				if walk(e, d+1) {
+					return true
+				}
+			}
+		case *ssa.Convert:
+			return walk(x.X, d+1)
+		case *ssa.ChangeType:
+			return walk(x.X, d+1)
+		case *ssa.BinOp:
+			return walk(x.X, d+1) || walk(x.Y, d+1)
+		}
+		return false
+	}
+	return walk(v, 0)
 }
